@@ -239,6 +239,43 @@ def all_jobs(tier, seed):
             jobs.append(a_job)
             jobs.append(b_job)
             jobs.append(dict(src="ACL_OVERLAP_R", model=model, rb=rb, old=cfg(ifaces, False), new=cfg(ifaces, False), acl=acl))
+    # jobs whose generators registered references (non-empty RefTracker): Orderer.ref_insert puts their ordering rules in
+    # front of the vendor's; the next job of the same hardware must not see them.  REF_A (with refs) runs as prelude right
+    # before REF_B (same hardware, no refs, a patch with rows the inserted rules would match); both are also ordinary jobs.
+    rnd = g.rng(seed, "c20refs")
+    hua_rows = [["ip ip-prefix P index 10 permit 10.0.0.0 8", []], ["acl number 2001", [["rule 5 permit", []]]],
+                ["route-policy RP permit node 10", [["if-match ip-prefix P", []]]],
+                ["interface GE1", [["traffic-filter inbound acl 2001", []], ["description x", []]]],
+                ["ip community-filter basic CF permit 1:1", []], ["bfd", []], ["vlan batch 10 20", []]]
+    hua_refs = [
+        [["interface *\n    traffic-filter ~\n", "acl number *\n"]],
+        [["route-policy ~\n", "ip ip-prefix ~\n"], ["interface *\n", "acl ~\n"]],
+        [[[["route-policy RP permit node 10", []]], [["ip community-filter basic CF permit 1:1", []]]], ["bfd\n", "vlan batch\n"]],
+    ]
+    cis_rows = [["ip access-list extended A1", [["permit ip any any", []]]], ["route-map RM permit 10", [["match ip address A1", []]]],
+                ["interface e1", [["ip access-group A1 in", []], ["description x", []]]], ["ip prefix-list PL seq 5 permit 10.0.0.0/8", []],
+                ["vlan 10", []]]
+    cis_refs = [[["interface *\n", "ip access-list ~\n"]], [["route-map ~\n", "ip prefix-list ~\n"], ["vlan *\n", "interface *\n"]]]
+    r1_refs = [[["blk *\n    sub *\n", "d *\n"]], [["a *\n", "c\n"], ["m *\n", "blk *\n"]]]
+
+    def subset(rows, p):
+        out = [[r, [list(c) for c in ch]] for r, ch in rows if rnd.random() < p]
+        rnd.shuffle(out)
+        return out
+
+    for k in range(6 if quick else 60):
+        for model, rows, refsets in (("Huawei", hua_rows, hua_refs), ("Huawei CE6870", hua_rows, hua_refs), ("Cisco", cis_rows, cis_refs),
+                                     ("Arista", cis_rows, cis_refs)):
+            a_job = dict(src="REF_A", model=model, rb="shipped", old=subset(rows, 0.3), new=subset(rows, 0.8), acl=None,
+                         refs=refsets[k % len(refsets)])
+            b_job = dict(src="REF_B", model=model, rb="shipped", old=subset(rows, 0.2), new=subset(rows, 0.9), acl=None, prelude=[a_job])
+            jobs += [a_job, b_job]
+        for vendor, model in (("huawei", "Huawei"), ("cisco", "Cisco")):
+            rb = dict(vendor=vendor, rul=R_MUT, order=ORDER_SMALL.replace("undo", g.VENDORS[vendor]["neg"]))
+            o1, n1 = _mut_pair(rnd)
+            o2, n2 = _mut_pair(rnd)
+            a_job = dict(src="REF_A", model=model, rb=rb, old=o1, new=n1, acl=None, refs=r1_refs[k % len(r1_refs)])
+            jobs += [a_job, dict(src="REF_B", model=model, rb=rb, old=o2, new=n2, acl=None, prelude=[a_job])]
     # rows whose shipped rules depend on the hardware model (mako branches of huawei.rul): the per-hardware rulebook cache
     rnd = g.rng(seed, "c20hwsens")
     for k in range(3 if quick else 30):
@@ -282,19 +319,37 @@ def _objects(job):
     return hw, rb, g.to_tree(job["old"]), g.to_tree(job["new"]), acl
 
 
+def make_tracker(refs):
+    """a RefTracker as the generators leave it: one (referencing class, defining class) edge per pair, each class with
+    the ordering-rule text (or config dict) it registered"""
+    from annet.reference import RefTracker
+    t = RefTracker()
+    for i, (ref_cfg, def_cfg) in enumerate(refs or []):
+        rcls, dcls = type("Ref%d" % i, (), {}), type("Def%d" % i, (), {})
+        t.add(rcls, dcls)
+        t.config(rcls, g.to_tree(ref_cfg) if isinstance(ref_cfg, list) else ref_cfg)
+        t.config(dcls, g.to_tree(def_cfg) if isinstance(def_cfg, list) else def_cfg)
+    return t
+
+
 def compute(job, objs=None):
-    """the production path of one device: (diff, patch command paths, ordered config); json-able"""
+    """the production path of one device: (diff, patch command paths, ordered config); json-able.
+    job["refs"] (optional): the (reference, definition) ordering texts the device's generators registered; they reach the
+    Orderer through RefTracker -> api.patch_from_pre -> Orderer.ref_insert exactly as in `annet patch/deploy`."""
     from annet import api
+    from annet import patching as top_patching
     from annet.annlib import patching
     from annet.vendors import registry_connector
     hw, rb, old, new, acl = objs or _objects(job)
     try:
         device = types.SimpleNamespace(hw=hw, hostname="h", fqdn="h.example")
-        diff, pt = api._diff_and_patch(device, old, new, acl, None, False, rb=rb)
+        diff, pt = api._diff_and_patch(device, old, new, acl, None, False, ref_track=make_tracker(job.get("refs")), rb=rb)
         fmt = registry_connector.get().match(hw).make_formatter(indent="")
         paths = [list(p) for p in fmt.cmd_paths(pt).keys()]
         shown = registry_connector.get().match(hw).make_formatter().patch(pt)
-        ordered = g.to_nested(patching.Orderer(rb["ordering"], hw.vendor).order_config(new))
+        orderer = top_patching.Orderer.from_hw(hw) if job["rb"] == "shipped" else patching.Orderer(rb["ordering"], hw.vendor)
+        orderer.ref_insert(make_tracker(job.get("refs")))
+        ordered = g.to_nested(orderer.order_config(new))
         return dict(diff=_ser_diff(diff), patch=paths, shown=shown, ordered=ordered)
     except Exception as e:      # must be the same in every history, too
         return dict(error="%s: %s" % (type(e).__name__, e))
@@ -512,9 +567,11 @@ def run(tier="quick", seed=0, part=0, nparts=1):
             got = json.loads(json.dumps(res))
             if got != fr:
                 what = next(x for x in ("error", "diff", "patch", "shown", "ordered") if got.get(x) != fr.get(x))
-                add("bounded:C20:history-dependent-" + what, "%s computed after %d other jobs differs from the result in %s" % (what, pos, how),
-                    dict(job=jobs[k], history=[_brief(jobs[x]) for x in seq[:pos]][-6:], position=pos,
-                         sequence=dict(tier=tier, seed=seed, part=part, nparts=nparts)), _short(fr.get(what)), _short(got.get(what)))
+                key = "bounded:C20:history-dependent-" + what
+                if per_key.get(key, 0) < 3:
+                    add(key, "%s computed after %d other jobs differs from the result in %s" % (what, pos, how),
+                        dict(job=jobs[k], history=[_brief(jobs[x]) for x in seq[:pos]][-6:], position=pos,
+                             sequence=_shrink([jobs[x] for x in seq[:pos]], jobs[k], fr)), _short(fr.get(what)), _short(got.get(what)))
         if pos > 0 and "error" not in res and res["patch"]:
             nontrivial.add(h(jobs[k]))
     if part == 0:
@@ -526,11 +583,48 @@ def run(tier="quick", seed=0, part=0, nparts=1):
                      "no_ipv6_nd_suppress_ra, default_instead_undo) on cisco/nexus, a huawei text (huawei.bgp.undo_commit, huawei.bgp.peer, "
                      "huawei.misc.undo_redo) on 3 models; ACLs with 2-3 overlapping blocks (same-named children, different %cant_delete / "
                      "%generator_names) on huawei/cisco/h3c with a several-blocks-match job run right before a one-block-matches job; "
-                     "each part runs its jobs twice in one seeded shuffled in-process sequence; "
+                     "jobs with a non-empty RefTracker (Orderer.ref_insert through api.patch_from_pre and Orderer.from_hw) on huawei/cisco/arista "
+                     "and on the synthetic text, each run right before a reference-free job of the same hardware; each part runs its jobs twice in one seeded shuffled in-process sequence; "
                      "evaluation = one in-sequence result compared with the fresh-process result (zygote fork per job; "
                      "+ exec'ed interpreter per job for a sample); non-trivial = non-empty patch computed with a non-empty history; "
                      "distinct by job hash",
                 bound="%d jobs per part, sequence length %d, configs <= 3 levels" % (len(jobs), len(seq)))
+
+
+def run_sequence_fresh(seq_jobs):
+    """a freshly exec'ed interpreter computes the jobs one after the other (preludes included); -> result of the last"""
+    env = dict(os.environ)
+    env["PYTHONPATH"] = os.pathsep.join(p for p in sys.path if p)
+    p = subprocess.Popen([sys.executable, "-m", "bounded.c20", "--sequence"], stdin=subprocess.PIPE, stdout=subprocess.PIPE,
+                         stderr=subprocess.PIPE, env=env, cwd=os.path.dirname(os.path.dirname(os.path.abspath(__file__))))
+    p.stdin.write(json.dumps(seq_jobs).encode())
+    p.stdin.close()
+    return _collect(p)
+
+
+def sequence_main():
+    import annet.api  # noqa: F401
+    res = None
+    for job in json.loads(sys.stdin.read()):
+        for pj in job.get("prelude", []):
+            compute(pj)
+        res = compute(job)
+    sys.stdout.write(json.dumps(res))
+    sys.stdout.flush()
+
+
+def _shrink(history, job, fresh):
+    """the recorded case carries the whole job sequence (history + the job); a shorter history is recorded instead when a
+    fresh interpreter confirms that it still gives a result different from the fresh-process one"""
+    same_hw = [j for j in history if j["model"] == job["model"]]
+    for cand in ([j for j in same_hw if j.get("refs") or j.get("prelude")][-4:], same_hw[-8:], same_hw):
+        if len(cand) < len(history):
+            try:
+                if run_sequence_fresh(cand + [job]) != fresh:
+                    return cand + [job]
+            except Exception:
+                pass
+    return history + [job]
 
 
 def _brief(job):
@@ -538,26 +632,17 @@ def _brief(job):
 
 
 def replay(case):
-    """a recorded history-dependent failure carries (tier, seed, part, nparts, position): the same in-process sequence is
-    rebuilt and run up to that position, then compared with a freshly exec'ed interpreter; other cases: the job is run once
-    in this process (with the snapshot checks) and once fresh"""
+    """a recorded history-dependent failure carries the whole job sequence (the job last): a freshly exec'ed interpreter runs
+    the sequence and another one the job alone; other cases: the job (after its prelude) is run in this process with the
+    snapshot checks and once fresh"""
     job = case["job"]
-    fails = []
-    if "sequence" in case:
-        q = case["sequence"]
-        jobs = [j for i, j in enumerate(all_jobs(q["tier"], q["seed"])) if i % q["nparts"] == q["part"]]
-        rnd = g.rng(q["seed"], "c20seq", q["part"], q["nparts"])
-        seq = list(range(len(jobs))) + list(range(len(jobs)))
-        rnd.shuffle(seq)
-        for k in seq[:case["position"] + 1]:
-            for pj in jobs[k].get("prelude", []):
-                compute(pj)
-            res, fails = in_process_checks(jobs[k])
-        job = jobs[seq[case["position"]]]
-    else:
-        for pj in job.get("prelude", []):
-            compute(pj)
-        res, fails = in_process_checks(job)
+    if isinstance(case.get("sequence"), list):
+        got = run_sequence_fresh(case["sequence"])
+        fr = fresh_results([job], per_job_exec=True)[0]
+        return dict(ok=(got == fr), expected=_short(fr), actual=_short(got))
+    for pj in job.get("prelude", []):
+        compute(pj)
+    res, fails = in_process_checks(job)
     fr = fresh_results([job], per_job_exec=True)[0]
     got = json.loads(json.dumps(res))
     if fails:
@@ -568,3 +653,5 @@ def replay(case):
 if __name__ == "__main__":
     if "--zygote" in sys.argv:
         zygote_main()
+    elif "--sequence" in sys.argv:
+        sequence_main()
